@@ -124,20 +124,14 @@ def run(ctx):
 
     # ---------------- R2
     dp = P.fn('cppcms::url_dispatcher::dispatch')
-    lp = [L for L in q.loops(dp) if dp.N(L)['k'] == 'ForStmt']
+    lp = [L for L in q.loops(dp) if dp.N(L)['k'] in ('ForStmt', 'WhileStmt')]
     ctx.check(len(lp) == 1, R2, 'dispatch:single-scan-loop', 'expected one scan loop', dp.where)
     if lp:
         L = dp.N(lp[0])
-        iv = None
-        init = dp.strip(L['init']) if L.get('init', -1) >= 0 else None
-        if init is not None and dp.N(init)['k'] == 'BinaryOperator' and dp.N(init).get('op') == '=' and dp.const_value(dp.N(init)['ch'][1]) == 0:
-            iv = dp.ref_of(dp.N(init)['ch'][0])
-        inc = dp.strip(L['inc']) if L.get('inc', -1) >= 0 else None
-        up = inc is not None and dp.N(inc)['k'] == 'UnaryOperator' and dp.N(inc).get('op') == '++' and dp.ref_of(dp.N(inc)['ch'][0]) == iv
-        cond = dp.strip(L['cond'])
-        cn = dp.N(cond)
-        full = cn['k'] == 'BinaryOperator' and cn.get('op') == '<' and dp.ref_of(cn['ch'][0]) == iv and q.mentions_field_call(dp, cn['ch'][1], '_data::options', 'size')
-        ctx.check(iv is not None and up and full, R2, 'dispatch:scans-from-0-upward-to-size', 'rules are not scanned in registration order over the whole table', dp.loc(lp[0]))
+        cl = q.counting_loop(dp, lp[0])
+        iv = cl['var'] if cl else None
+        full = cl is not None and cl['start'] == 0 and cl['step'] == 1 and cl['op'] == '<' and q.mentions_field_call(dp, cl['bound'], '_data::options', 'size')
+        ctx.check(full, R2, 'dispatch:scans-from-0-upward-to-size', 'rules are not scanned in registration order over the whole table', dp.loc(lp[0]))
         dcs = [i for i in dp.calls(L['body']) if (dp.bcallee(i) or '').endswith('::option::dispatch')]
         g = q.call_gate(dp, lambda i: i in dcs, True)
         succ = q.nonfalse_returns(dp)
